@@ -190,6 +190,30 @@ def check_next(ctx, F, hty, size_off, label, rule_prefix="T"):
                   how="assert dominates the unsafe block", why="facts %s" % [G.show(f)[:80] for f in facts])
     else:
         ctx.fail(rule_prefix + "2", label + ":header-address", "exactly one raw pointer addition in next()", A.site(), "%d" % len(adds))
+    # T4x: next() has no rejection of its own beyond "the offset has left the buffer": every explicit panic edge lies under
+    # offset >= buffer.len() (the other controlled panics of the walk are the bounds-checked slicing, the header's own size test and
+    # the unwrap of ref_from_slice - may-panic calls, not tests of next()).  An extra assertion on a conformant tag (say on the
+    # size being a multiple of 8) is a walk that stops where the specification's walk continues
+    from .. import panic as P_
+    raw_off_ = raw_field(A, "next_tag_offset", itf, it[0])
+    raw_buf_ = raw_field(A, "buffer", itf, it[0])
+    bad_x, n_x = [], 0
+    for s_ in P_.sites_of(F, inst):
+        if s_.kind != "explicit" or s_.status == "discharged":
+            continue
+        n_x += 1
+        fs_ = list(A.g.facts_at(s_.bb))
+
+        def unwrap_spelt_out(f):
+            # `match ref_from_slice(..) { Ok(t) => t, Err(e) => panic!(..) }`: the unwrap of T3, written as a match
+            f = N(f)
+            return f[0] == "cmp" and f[1] in ("Eq", "Ne") and f[2][0] == "discr" and f[2][1][0] == "call" and G.cn(f[2][1][1]).endswith("DynSizedStructure::ref_from_slice")
+        if any(unwrap_spelt_out(f) for f in fs_):
+            continue
+        if G.entails(fs_, ("cmp", "Ge", raw_off_, ("len", raw_buf_))) is None and not any(N(f) == ("cmp", "Ge", off, ("len", buf)) or N(f) == ("cmp", "Gt", off, ("len", buf)) for f in fs_):
+            bad_x.append("%s under %s" % (s_.what, [G.show(f)[:70] for f in fs_][:4]))
+    ctx.check(not bad_x, rule_prefix + "4x", label + ":exact-rejection", "next() itself diverges only when the offset has left the buffer (offset >= buffer.len())",
+              A.site(), how="%d explicit panic edge(s), each under offset >= len" % n_x, why="; ".join(bad_x)[:400])
     # write
     writes = [(bb, name, val) for (bb, si, name, val) in an.writes_through(A, 1)]
     g5 = len(writes) == 1 and writes[0][1] == "next_tag_offset" and bool(somes) and b.dominates(writes[0][0], somes[0].bb) and \
